@@ -284,8 +284,7 @@ class ModelRepeat(dict):
             raise AttributeError(k)
 
 
-class ModelUnknown(Exception):
-    """The model cannot predict this (case is skipped, and counted)."""
+ModelUnknown = X.ModelUnknown
 
 
 class ErrorInfo:
